@@ -185,80 +185,80 @@ class HRPrinter(TreeWalker):
 
     def walk_str_length(self,formula: FNode):
         self.write("str.len(" )
-        self.walk(formula.arg(0))
+        yield formula.arg(0)
         self.write(")")
 
     def walk_str_charat(self,formula: FNode, **kwargs):
         self.write("str.at(" )
-        self.walk(formula.arg(0))
+        yield formula.arg(0)
         self.write(", ")
-        self.walk(formula.arg(1))
+        yield formula.arg(1)
         self.write(")")
 
     def walk_str_concat(self,formula: FNode, **kwargs):
         self.write("str.++(" )
         for arg in formula.args()[:-1]:
-            self.walk(arg)
+            yield arg
             self.write(", ")
-        self.walk(formula.args()[-1])
+        yield formula.args()[-1]
         self.write(")")
 
     def walk_str_contains(self,formula: FNode, **kwargs):
         self.write("str.contains(" )
-        self.walk(formula.arg(0))
+        yield formula.arg(0)
         self.write(", ")
-        self.walk(formula.arg(1))
+        yield formula.arg(1)
         self.write(")")
 
     def walk_str_indexof(self,formula: FNode, **kwargs):
         self.write("str.indexof(" )
-        self.walk(formula.arg(0))
+        yield formula.arg(0)
         self.write(", ")
-        self.walk(formula.arg(1))
+        yield formula.arg(1)
         self.write(", ")
-        self.walk(formula.arg(2))
+        yield formula.arg(2)
         self.write(")")
 
     def walk_str_replace(self,formula: FNode, **kwargs):
         self.write("str.replace(" )
-        self.walk(formula.arg(0))
+        yield formula.arg(0)
         self.write(", ")
-        self.walk(formula.arg(1))
+        yield formula.arg(1)
         self.write(", ")
-        self.walk(formula.arg(2))
+        yield formula.arg(2)
         self.write(")")
 
     def walk_str_substr(self,formula: FNode, **kwargs):
         self.write("str.substr(" )
-        self.walk(formula.arg(0))
+        yield formula.arg(0)
         self.write(", ")
-        self.walk(formula.arg(1))
+        yield formula.arg(1)
         self.write(", ")
-        self.walk(formula.arg(2))
+        yield formula.arg(2)
         self.write(")")
 
     def walk_str_prefixof(self,formula: FNode, **kwargs):
         self.write("str.prefixof(" )
-        self.walk(formula.arg(0))
+        yield formula.arg(0)
         self.write(", ")
-        self.walk(formula.arg(1))
+        yield formula.arg(1)
         self.write(")")
 
     def walk_str_suffixof(self,formula: FNode, **kwargs):
         self.write("str.suffixof(" )
-        self.walk(formula.arg(0))
+        yield formula.arg(0)
         self.write(", ")
-        self.walk(formula.arg(1))
+        yield formula.arg(1)
         self.write(")")
 
     def walk_str_to_int(self,formula: FNode, **kwargs):
         self.write("str.to.int(" )
-        self.walk(formula.arg(0))
+        yield formula.arg(0)
         self.write(")")
 
     def walk_int_to_str(self,formula: FNode, **kwargs):
         self.write("int.to.str(" )
-        self.walk(formula.arg(0))
+        yield formula.arg(0)
         self.write(")")
 
     def walk_array_select(self, formula: FNode) -> Iterator[FNode]:
@@ -276,7 +276,13 @@ class HRPrinter(TreeWalker):
         self.write("]")
 
     def walk_array_value(self, formula: FNode) -> Iterator[FNode]:
-        self.write(str(self.env.stc.get_type(formula)))
+        # The type is written from the index type and the type of the
+        # default: the node itself might be ill-typed (this printer also
+        # writes the message of the type error)
+        default = formula.array_value_default()
+        self.write(str(self.env.type_manager.ArrayType(
+            formula.array_value_index_type(),
+            self.env.stc.get_type(default))))
         self.write("(")
         yield formula.array_value_default()
         self.write(")")
